@@ -2,7 +2,7 @@
     Property theorems only; every proof is [exact] of a lemma of Proofs/. *)
 From Coq Require Import ZArith List Bool.
 From PV Require Import Model.Base Model.Sched Model.Chan Model.Seq Model.SeqSnap.
-From PV Require Gen.Pure Model.Chan Proofs.PureEq.
+From PV Require Gen.Pure Gen.PureLoops Model.Chan Proofs.PureEq Proofs.PureLoopsEq.
 From PV Require Import Proofs.SchedInv Proofs.SchedOps Proofs.SeqInv Proofs.DurationSpec Proofs.AlignWitness.
 Import ListNotations.
 Open Scope Z_scope.
@@ -111,3 +111,13 @@ Theorem C02_source_check_duration :
     Gen.Pure.gen_check_duration (en_max e) t block = check_duration e t block.
 Proof. exact PureEq.check_duration_eq. Qed.
 Print Assumptions C02_source_check_duration.
+
+(** ... and the duration query itself: the backwards scan regenerated from the
+    source of _ChannelSchedule.get_duration (a `for` loop with `break`,
+    translated to a structural Fixpoint) computes [ch_duration], for every
+    channel state. *)
+Theorem C02_source_get_duration :
+  forall (c : chan) (fall : bool),
+    Gen.PureLoops.gen_get_duration (ch_slots c) (c_rise (ch_cfg c)) (in_eom c) fall = ch_duration c fall.
+Proof. exact PureLoopsEq.get_duration_eq. Qed.
+Print Assumptions C02_source_get_duration.
